@@ -193,6 +193,7 @@ def stepLine (s : DSt) (line : String) : DSt × String :=
     let acc := s.acc.filter quietOk
     ({ s with acc := acc }, accStr acc)
   | ["t", "seed", _, _] => (s, accStr s.acc)
+  | ["t", "note", _] => (s, accStr s.acc)
   | ["t", "down"] =>
     let acc := s.acc.filter downOk
     ({ s with acc := acc }, accStr acc)
